@@ -535,6 +535,21 @@ def witness_matches(kf, replay_path):
     return bool(fn and fn(rep))
 
 
+def assumed_contracts():
+    """mechanical scan of the registry: contracts that are only ASSUMED at call sites (no verification task), and
+    contracts whose call-site model is used unbounded although their own verification is bounded"""
+    from pyvc.contract import REG
+    out = []
+    for q, c in sorted(REG.contracts.items()):
+        doc = (c.__doc__ or "").strip().split("\n")[0]
+        if not getattr(c, "verify", True):
+            out.append(f"ASSUMED contract (call-site model only, not verified): {q} - {doc}")
+        elif not getattr(c, "unbounded", True) and getattr(c, "callable_by_contract", True) \
+                and type(c).havoc is not __import__("pyvc.contract", fromlist=["Contract"]).Contract.havoc:
+            out.append(f"call-site model used in unbounded proofs, own verification BOUNDED only: {q}")
+    return out
+
+
 def build_evidence(prop, tier, level, agg, bagg, resA, resB, D, bounded, wall, n_obl, n_dis, covers, design_ref, tree):
     funcs = {}
     for r in resA:
@@ -580,7 +595,7 @@ def build_evidence(prop, tier, level, agg, bagg, resA, resB, D, bounded, wall, n
             "tree": tree,
             "design_ref": design_ref,
         },
-        "assumptions": TRUSTED_BASE,
+        "assumptions": TRUSTED_BASE + assumed_contracts(),
         "wall_s": round(wall, 2),
         "violations": len(D.violations),
     }
